@@ -67,6 +67,8 @@ def agree(prog, want, got):
         return False
     if want["log"] != got["log"]:
         return False
+    if want["ty"] == "fatal" or got.get("ty") == "fatal":       # uncatchable condition: same kind, and nothing ran after it
+        return got.get("ty") == want["ty"] and got["v"] == want["v"]
     if prog["gen"]:
         return True
     wt = want["ty"]
@@ -80,6 +82,9 @@ def compare(chk, binp, progs, wd, tag, devs_known, what):
     want, states = tlc_eval(progs, wd, tag)
     got = goja_run(binp, progs, wd, tag)
     byid = {p["id"]: p for p in progs}
+    nfatal = sum(1 for p in progs if want[p["id"]]["ty"] == "fatal")
+    if nfatal:
+        chk.add("uncatchable_outcomes", nfatal)
     bad = [p for p in progs if not agree(p, want[p["id"]], got[p["id"]])]
     explained = {}
     if bad and devs_known:
